@@ -10,13 +10,15 @@ use std::sync::Arc;
 
 type Body = Arc<dyn Fn() -> String + Send + Sync>;
 
-pub const INPUTS: [(&str, &str, u8); 6] = [
+pub const INPUTS: [(&str, &str, u8); 8] = [
     ("T1 parse: open 1364-2001 region using logic/do as identifiers", "`begin_keywords \"1364-2001\"\nmodule a; reg logic; wire do; endmodule\n`end_keywords\nmodule a2; logic l; endmodule\n", 0),
     ("T2 parse: logic as net name (must fail)", "module b; wire logic; endmodule\n", 0),
     ("T3 preprocess: function-like macros and conditionals", "`define F(x, y) x + y\n`ifdef A\n`F(1, 2)\n`else\n`F(3, (4, 5)) /* c */\n`endif\n`define G `F(a, b)\n`G\n", 1),
     ("T4 parse: same text as T1", "`begin_keywords \"1364-2001\"\nmodule a; reg logic; wire do; endmodule\n`end_keywords\nmodule a2; logic l; endmodule\n", 0),
     ("T5 parse_lib", "library l a.v, b.v -incdir c;\ninclude d.map;\n", 2),
     ("T6 parse: directives between tokens and a define used in text", "`define W 3\nmodule c; `timescale 1ns/1ps\n wire [`W:0] w; // c\nendmodule\n", 0),
+    ("T7 preprocess: include resolved through include path A", "`define P 1\nbefore\n`include \"c19_common.svh\"\nafter `WIDTH\n", 3),
+    ("T8 preprocess: the same include name resolved through include path B", "x\n`include \"c19_common.svh\"\ny `WIDTH\n", 4),
 ];
 
 fn body(k: usize) -> Body {
@@ -25,8 +27,13 @@ fn body(k: usize) -> Body {
         let d = Defs::new();
         let incs: Vec<PathBuf> = vec![];
         let path = Path::new("top.sv");
+        let incs: Vec<PathBuf> = match kind {
+            3 => vec![inc_dir("a")],
+            4 => vec![inc_dir("b")],
+            _ => incs,
+        };
         match kind {
-            1 => match api::pp_str(text, path, &d, &incs, false, false) {
+            1 | 3 | 4 => match api::pp_str(text, path, &d, &incs, false, false) {
                 Err(p) => format!("PANIC {}", p),
                 Ok(Err(e)) => format!("ERR {}", err_sig(&e)),
                 Ok(Ok((pt, dd))) => format!("OK {:?} {:?}", pt.text(), defs_sig(&dd, true, false)),
@@ -41,6 +48,10 @@ fn body(k: usize) -> Body {
             }
         }
     })
+}
+
+fn inc_dir(which: &str) -> PathBuf {
+    crate::core::run::verif_dir().join(".work").join("C19").join(format!("inc_{}", which))
 }
 
 fn f_coarse(n: &'static str) -> bool {
@@ -131,10 +142,15 @@ pub fn build(tier: Tier) -> Check<'static> {
         "interference is observable at the granularity of the hook points (token level); data races inside unsafe code are not modelled".into(),
         "a free-running pass (16 threads x 200 calls) is appended as a sampling sanity check of the scheduler itself; it is not the verdict".into(),
     ];
+    for (w, width) in [("a", "8"), ("b", "32")] {
+        let d = inc_dir(w);
+        let _ = std::fs::create_dir_all(&d);
+        std::fs::write(d.join("c19_common.svh"), format!("`define WIDTH {}\nfrom_{}\n", width, w)).expect("write include");
+    }
     let solo: Arc<Vec<String>> = Arc::new((0..INPUTS.len()).map(|k| std::thread::spawn(move || body(k)()).join().unwrap()).collect());
     let mut combos: Vec<Combo> = vec![];
     let q = tier == Tier::Quick;
-    for pair in [[0usize, 1], [1, 0], [0, 2], [2, 0], [1, 2], [0, 3], [0, 4], [2, 5], [5, 0]] {
+    for pair in [[0usize, 1], [1, 0], [0, 2], [2, 0], [1, 2], [0, 3], [0, 4], [2, 5], [5, 0], [6, 7], [7, 6], [6, 2]] {
         combos.push(Combo { threads: pair.to_vec(), bound: 1, filter: f_fine, filter_name: "all hooks except memo", max: 50_000 });
     }
     combos.push(Combo { threads: vec![0, 1], bound: 1, filter: f_all, filter_name: "all hooks incl. memo get/insert", max: 50_000 });
